@@ -341,7 +341,10 @@ class Check(DiffCheck):
         return None
 
     def extra(self, ctx):
-        # informational ASan probe for finding C07-F1 (N = 1 template instantiation); never part of the verdict
+        # informational ASan probe for finding C07-F1 (N = 1 template instantiation); never part of the verdict;
+        # thorough tier only (an extra ASan compile is expensive on a loaded machine)
+        if ctx.get('tier') != 'thorough':
+            return []
         try:
             exe, log = cxx_build(self.id, ['harness/C07/probe_n1.cpp'], asan=True, out=os.path.join(BUILD, 'bin', 'C07_probe_n1'))
             if exe:
